@@ -219,7 +219,7 @@ def _part_b(ctx):
         if not sess.deliver(data, segs, em, er, f"2cut@{c1},{c2}", bounds):
             sess = Session(ctx)
     ctx.exhaustive["two_cut_partitions_of_60_byte_stream"] = True
-    nstreams = 12 if ctx.quick else 150
+    nstreams = 12 if ctx.quick else 400
     for si in range(nstreams):
         spec = _random_spec(rng, big=(si % 6 == 5))
         probe, _, _, _ = sess.make_stream(spec)
